@@ -34,7 +34,7 @@ Proof.
   all: try (match goal with H : c_html _ = true /\ _ |- _ => destruct H as [_ H] end).
   all: repeat match goal with H : _ \/ _ |- _ => destruct H as [H|H] end.
   all: try (match goal with H : exists _, _ |- _ => destruct H as (l & Hl & [H|H]) end).
-  all: destruct H as (_ & _ & C & N); split;
+  all: destruct H as (_ & _ & C & N & _); split;
        [ intros k v I K; exfalso; exact (N k v I K)
        | intros ch E _; destruct C as [C|C]; rewrite C in E; [discriminate E | injection E as <-; constructor] ].
 Qed.
